@@ -151,4 +151,6 @@ func vfC15RunAnno(c *vt.Ctx, s vfC15AnnoScenario) {
 	}
 }
 
-func TestVerifC15PodNetworksAnnotation(t *testing.T) { vt.Run(t, vfC15GenAnno, vfC15RunAnno) }
+func TestVerifC15PodNetworksAnnotation(t *testing.T) {
+	vt.Run(t, vfC15GenAnno, g.NoPanic(vfC15RunAnno))
+}
